@@ -173,9 +173,57 @@ func VerifH_C06_CancelThenReuse() {
 		verifrt.Reach("ex1-failed")
 	}
 	r2, err2 := t.ExchangeContext(context.Background(), mk(id2, 2))
-	verifrt.Assert(err2 == nil, "with a healthy server the second exchange succeeds")
-	verifrt.Reach("ex2-ok")
-	verifrt.Assert(r2.Header.ID == id2 && r2.Header.RCode == 2, "exchange 2 got the reply to its own query, not a stale one")
+	if err2 == nil {
+		verifrt.Reach("ex2-ok")
+		verifrt.Assert(r2.Header.ID == id2 && r2.Header.RCode == 2, "exchange 2 got the reply to its own query, not a stale one")
+	} else {
+		// only a response deadline striking on exchange 2 itself can make it fail against a healthy server
+		anyDl := false
+		for _, c := range conns {
+			anyDl = anyDl || c.deadlines
+		}
+		verifrt.Assert(anyDl, "with a healthy server and no deadline the second exchange succeeds")
+	}
+	for _, c := range conns {
+		verifrt.Assert(!c.violated, "a connection never carries a second query before the previous reply was consumed")
+	}
+}
+
+// VerifH_C06_TimeoutThenReuse: the response deadline of exchange 1 may strike at any scheduling point
+// (before the reply, between its two segments, after it); exchange 2 follows. A connection whose exchange
+// timed out still has (part of) a reply in flight and must never be reused.
+func VerifH_C06_TimeoutThenReuse() {
+	verifrt.Unwind(80)
+	verifrt.SchedBound(2)
+	var conns []*vNetConn
+	t := NewReuseConnTransport(ReuseConnOpts{DialContext: func(ctx context.Context) (net.Conn, error) {
+		c := newVNetConn()
+		c.checkClean = true
+		c.deadlines = len(conns) == 0 // only the first connection's deadline may strike
+		conns = append(conns, c)
+		go vServe(c)
+		return c, nil
+	}})
+	mk := func(id uint16, marker byte) []byte {
+		m := make([]byte, 12)
+		m[0], m[1] = byte(id>>8), byte(id)
+		m[3] = marker
+		return m
+	}
+	id1, id2 := verifrt.U16("id1"), verifrt.U16("id2")
+	r1, err1 := t.ExchangeContext(context.Background(), mk(id1, 1))
+	if err1 == nil {
+		verifrt.Reach("ex1-ok")
+		verifrt.Assert(r1.Header.ID == id1 && r1.Header.RCode == 1, "exchange 1 got the reply to its own query")
+	} else {
+		verifrt.Reach("ex1-timed-out")
+	}
+	verifrt.Quiesce()
+	r2, err2 := t.ExchangeContext(context.Background(), mk(id2, 2))
+	if err2 == nil {
+		verifrt.Reach("ex2-ok")
+		verifrt.Assert(r2.Header.ID == id2 && r2.Header.RCode == 2, "exchange 2 got the reply to its own query, not a stale one")
+	}
 	for _, c := range conns {
 		verifrt.Assert(!c.violated, "a connection never carries a second query before the previous reply was consumed")
 	}
